@@ -1,7 +1,8 @@
 # setup: build every engine once (checks rebuild incrementally from /repo on every run anyway)
+V ?= $(CURDIR)
 setup:
-	$(MAKE) -s -f engines/chanbfs/Makefile FLAVOUR=plain all
-	$(MAKE) -s -j16 -f engines/vsched/Makefile FLAVOUR=cov all
-	$(MAKE) -s -j16 -f engines/seqx/Makefile FLAVOUR=plain all
-	$(MAKE) -s -j16 -f engines/seqx/Makefile FLAVOUR=asan c17
+	$(MAKE) -s -f $(V)/engines/chanbfs/Makefile V=$(V) FLAVOUR=plain all
+	$(MAKE) -s -j16 -f $(V)/engines/vsched/Makefile V=$(V) FLAVOUR=cov all
+	$(MAKE) -s -j16 -f $(V)/engines/seqx/Makefile V=$(V) FLAVOUR=plain all
+	$(MAKE) -s -j16 -f $(V)/engines/seqx/Makefile V=$(V) FLAVOUR=asan c17
 .PHONY: setup
